@@ -3,6 +3,7 @@ import Swat4.Drv.Store
 import Swat4.Model.Heartbeat
 import Swat4.Model.Heartbeat6
 import Swat4.Model.UdpServer
+import Swat4.Model.HeartbeatCfg
 import Swat4.Drv.UCRun
 /-!
 # Driver helpers shared by the reporter properties C04, C05, C06
@@ -18,8 +19,9 @@ open Swat4 Swat4.Drv Swat4.Heartbeat
 /-- `world.Epoch` in ns (2024-01-01T00:00:00Z) -/
 def epochNs : Int := 1704067200000000000
 
-/-- `world.DefaultOptions().RevivalRetries`, passed to `reportserver` as `MaxProbeRetries` -/
-def cfg : Cfg := ⟨2⟩
+/-- `world.DefaultOptions().RevivalRetries`, passed to `reportserver` as `MaxProbeRetries`: the Model's
+`Heartbeat.harnessCfg` (`Model/HeartbeatCfg.lean`) -/
+def cfg : Cfg := Heartbeat.harnessCfg
 
 def parseIp (s : String) : Option Nat :=
   match (s.splitOn ".").map String.toNat? with
@@ -130,7 +132,7 @@ def runOps : List Op → List String → AbsState → Int → String → String 
   | [], _ :: _, _, _, _, _, _ => none
   | .adv ns :: ops, out, st, now, implPrev, modelPrev, pend => runOps ops out st (now + ns) implPrev modelPrev pend
   | .uc spec :: ops, o :: d :: out, st, now, implPrev, modelPrev, pend =>
-    let (st', r) := (spec.prog { revivalRetries := 2, refreshRetries := 4 } fun _ => 0).run st now
+    let (st', r) := (spec.prog ({} : UCfg) fun _ => 0).run st now
     let implAfter := if d = "=" then implPrev else d
     let modelAfter := joinDump (dumpState st')
     let diff := if r == o && implAfter == modelAfter then none
